@@ -69,6 +69,9 @@ CallViolations(e) ==
           THEN {v \in WhitespaceViolations(r) : Wants(e, v[1]) \/ v[1] = "C01"} ELSE {})
   \cup (IF Wants(e, "C10") /\ "ftab" \in DOMAIN r /\ TableCoversOutput(r) /\ ~C10_Units(r) THEN {<<"C10", "units">>} ELSE {})
   \cup (IF Wants(e, "C02") /\ r.wf /\ "tout" \in DOMAIN r THEN {<<"C02", c>> : c \in C02_Violations(r, MLEq)} ELSE {})
+  \* the text was rendered from a derivation of Grammar.tla: the scanner must find the tokens the generator wrote
+  \cup (IF (Wants(e, "C02") \/ Wants(e, "C13")) /\ "intended" \in DOMAIN r /\ Len(PlainIdx(r.tin)) # r.intended
+          THEN {<<IF Wants(e, "C02") THEN "C02" ELSE "C13", "generator_intent">>} ELSE {})
   \cup (IF Wants(e, "C02") /\ r.wf /\ "idents" \in DOMAIN r /\ "tout" \in DOMAIN r /\ ~C02_IdentsKept(r) THEN {<<"C02", "identifier_case">>} ELSE {})
   \cup (IF Wants(e, "C05") /\ r.wf /\ "marks" \in DOMAIN r /\ "tout" \in DOMAIN r
           THEN {<<"C05", IF c = "own_line_inline_anon" THEN "own_line" ELSE c>> : c \in C05_Violations(r)} ELSE {})
